@@ -76,7 +76,12 @@ pub fn named_arg(it: &J) -> NamedArg {
 /// for cuts (`help_cuts`: character offsets) - fragments of alternating styles, the concatenation
 /// is the same text
 pub fn help_doc(it: &J) -> bpaf::Doc {
-    let text = dstr(s(it, "help"));
+    let mut text = dstr(s(it, "help"));
+    let more = s(it, "help_more");
+    if !more.is_empty() {
+        text.push_str("\n\n");
+        text.push_str(&dstr(more));
+    }
     let mut doc = bpaf::Doc::default();
     let cuts: Vec<usize> = it
         .get("help_cuts")
